@@ -44,6 +44,9 @@ func VerifyNameErrorNSEC(msg *dns.Msg, nsecSet []dns.RR) error {
 	}
 
 	q := msg.Question[0]
+	if !nsecSetInClass(nsecSet, q.Qclass) {
+		return ErrNSECMissingCoverage
+	}
 	qname := q.Name
 	if dname := dnsutil.DnameTarget(msg); dname != "" {
 		qname = dname
@@ -98,6 +101,19 @@ func VerifyNameErrorNSEC(msg *dns.Msg, nsecSet []dns.RR) error {
 		return nil
 	}
 	return ErrNSECMissingCoverage
+}
+
+// nsecSetInClass reports whether every record of the set is of the
+// question's class. A chain of another class says nothing about this one, and
+// a set that mixes classes is no chain at all; the NSEC3 verifiers and the
+// RFC 8198 evaluator bind the class the same way.
+func nsecSetInClass(nsecSet []dns.RR, qclass uint16) bool {
+	for _, rr := range nsecSet {
+		if rr.Header().Class != qclass {
+			return false
+		}
+	}
+	return true
 }
 
 // strictlyBelow reports whether name is a proper descendant of ancestor.
@@ -170,6 +186,9 @@ func VerifyNODATANSEC(msg *dns.Msg, nsecSet []dns.RR) error {
 	}
 
 	q := msg.Question[0]
+	if !nsecSetInClass(nsecSet, q.Qclass) {
+		return ErrNSECMissingCoverage
+	}
 	qname := q.Name
 
 	// Check if DNAME redirection applies
